@@ -1276,6 +1276,10 @@ def inj_reference(cx: Ctx) -> Planted:
             "type:not-imported-here",
             "type:nested-unqualified",
             "type:nested-just-closed",
+            "type:through-alias",
+            "type:through-imported-alias",
+            "cap:through-const",
+            "arith:through-const",
             "cap:undefined",
             "cap:later",
             "cap:type",
@@ -1294,6 +1298,13 @@ def inj_reference(cx: Ctx) -> Planted:
         sub = variant.split(":")[1]
         if sub == "undefined":
             ref = cx.const_name()
+        elif sub == "through-const":
+            # more components after a LEAF definition: `K.x` names nothing, although `K` does
+            c0 = Const(cx.const_name(), cx.int(1, 9))
+            f.items.insert(cx.int(0, idx), c0)
+            c0.parent = f
+            idx += 1
+            ref = c0.name + "." + cx.one(["x", "value", "K", c0.name])
         elif sub == "type":
             cands = [(t, d) for t, d in cx.visible_top_types(f, idx)]
             if not cands:
@@ -1423,6 +1434,23 @@ def inj_reference(cx: Ctx) -> Planted:
             f.items.remove(imp)
             f.items.insert(cx.int(0, top), imp)
         t = TRef(imp.name, None)
+    elif variant == "type:through-alias":
+        # more components after a LEAF definition: `Word.x` names nothing, although `Word` does
+        a = Alias(cx.type_name(), TBase("uint", cx.int(1, 64)))
+        f.items.insert(cx.int(0, top), a)
+        a.parent = f
+        t = TRef(a.name + "." + cx.one(["x", "Inner", a.name, "size"]), None)
+    elif variant == "type:through-imported-alias":
+        imp = cx.ensure_import(f)
+        _, top = cx.top_index(m)
+        ii = [i for i, x in enumerate(f.items) if x is imp][0]
+        if ii > top:
+            f.items.remove(imp)
+            f.items.insert(cx.int(0, top), imp)
+        a = Alias(cx.type_name(), TBase("uint", cx.int(1, 64)))
+        imp.file.items.append(a)
+        a.parent = imp.file
+        t = TRef(imp.name + "." + a.name + "." + cx.one(["x", "Inner", a.name]), None)
     elif variant == "type:enum-member":
         e = Enum(cx.type_name(), 3, [(cx.member_name(), 1)])
         f.items.insert(cx.int(0, top), e)
@@ -1433,6 +1461,9 @@ def inj_reference(cx: Ctx) -> Planted:
         t = TArray(_base(cx), cx.int(1, 4), ext=cx.coin(1, 4))
         if sub == "undefined":
             t.cap_text = cx.const_name()
+        elif sub == "through-const":
+            c = cx.const_before(m, cx.int(1, 4))
+            t.cap_text = c.name + "." + cx.one(["x", "value", c.name])
         elif sub == "later":
             c = Const(cx.const_name(), t.cap)
             cx.put(f, c, top + 1)
